@@ -54,6 +54,19 @@ class _PlCore(Contract):
     def results(self, result):
         return list(result) if isinstance(result, list) else None
 
+    def report_is_well_formed(self, r, co, lf, i):
+        """what failure_cases_metadata (the SchemaErrors report) and drop_invalid_rows assume of every polars error: the mask has one
+        entry per data row, and the failure cases are exactly the rows the mask marks false (the report numbers them by the false
+        positions of the mask: a different count makes polars raise while the report is being built)"""
+        out = {"mask_is_over_the_data_rows": co.space is lf.space}
+        fc = r.attrs.get("failure_cases")
+        if isinstance(fc, PP.FrameP) and co.space is lf.space:
+            out["failure_cases_are_the_rows_the_mask_marks_false"] = fc.space is lf.space and SBool(fc.sel(i) == z3.And(lf.sel(i), z3.Not(co.cols[KEY].null(i)), z3.Not(core.as_z3_bool(co.cols[KEY].at(i)))))
+            out["failure_cases_show_the_checked_column_only"] = list(fc.cols) == ["a"]
+        else:
+            out["failure_cases_are_a_frame"] = isinstance(fc, PP.FrameP)
+        return out
+
 
 class PolarsCheckNullable(_PlCore):
     target = f"{COLP}.check_nullable.__wrapped__"
@@ -78,6 +91,7 @@ class PolarsCheckNullable(_PlCore):
             if isinstance(co, PP.FrameP) and KEY in co.cols:
                 j = z3.Int(cur().fresh_name("j"))
                 out["check_output_true_exactly_on_non_null_rows"] = SBool(z3.Implies(lf.sel(j), core.as_z3_bool(co.cols[KEY].at(j)) == z3.And(z3.Not(col.null(j)), z3.Not(col.nan(j)))))
+                out.update(self.report_is_well_formed(r, co, lf, j))
         return out
 
 
@@ -107,6 +121,7 @@ class PolarsCheckUnique(_PlCore):
                 k, m = z3.Int(cur().fresh_name("k")), z3.Int(cur().fresh_name("m"))
                 dup = z3.Exists([m], z3.And(lf.sel(m), m != k, same(k, m)))
                 out["check_output_false_exactly_on_duplicated_rows"] = SBool(z3.Implies(lf.sel(k), core.as_z3_bool(co.cols[KEY].at(k)) == z3.Not(dup)))
+                out.update(self.report_is_well_formed(r, co, lf, k))
         return out
 
 
